@@ -1,11 +1,12 @@
 /-
-  C12 — Events sent to one system from one run arrive in the order sent.  **Violated by the pinned code (finding F1).**
+  C12 — Events sent to one system from one run arrive in the order sent.  **Holds after the repair of finding F1.**
 
   Deliveries to an idle target are consumed in-line, each before the next command of the sender is applied (C09
   telescoping). Deliveries to a busy target are postponed in sending order and replayed front to back by the target's
-  runner (`replay_*`): the *runs* happen in sending order. What each run *reads* is decided by the trackers: the claim
-  order equals the sending order when at most two entries are pending for the target in a tracker (`claims_in_order_two`),
-  and differs for three or more (`C12_false`, witness X1 of DESIGN §8).
+  runner (`replay_*`): the *runs* happen in sending order. What each run *reads* is decided by the trackers: every run
+  claims the entry its own command prepared (`each_with_its_own_data`, for every execution: `C03.C03_all`), so the data
+  arrive in sending order too — for any number of pending events (`claims_in_order`, and the former counter-witness
+  `four_events_in_order`).
 -/
 import Cobweb.Proofs.Trackers
 import Cobweb.Theorems.C09
@@ -30,20 +31,38 @@ theorem replay_stable (s : St) (sys other idx : Nat) (k : Kind) (bs kept : List 
     doReplayLoop s sys ((other, k) :: bs) kept idx = s.push [.replayLoop sys bs (kept ++ [(other, k)]) idx] :=
   C09.replay_keeps_others s sys other idx k bs kept hne
 
-/-- **In order for one or two pending events**: the first `start` claims the first entry, the second the remaining one. -/
-theorem claims_in_order_two (sys a b : Nat) :
-    C03.claimOrder 2 { prepared := [(sys, a), (sys, b)] } sys = [a, b] := by
-  simp [C03.claimOrder, TrkData.start, findIdx', swapRemove]
+/-- **In order for any number of pending events**: successive `start`s, each with the ticket of its own command, read the
+    events in the order in which the commands run — when that is the sending order (queue order, above), the data arrive in
+    sending order. Stated for a tracker holding exactly the entries of one system, without repetition. -/
+theorem claims_in_order (sys : Nat) : ∀ (ds : List Nat), ds.Nodup →
+    ∀ (t : TrkData), t.prepared = ds.map (fun d => (sys, d)) → C03.claimOrder ds t sys = ds := by
+  intro ds
+  induction ds with
+  | nil => intro _ t _; rfl
+  | cons d ds ih =>
+    intro hn t hp
+    have hm : (sys, d) ∈ t.prepared := by rw [hp]; simp
+    obtain ⟨_, h2, h3⟩ := TrkData.start_claims_own t sys d hm
+    simp only [C03.claimOrder, h2]
+    rw [ih (List.nodup_cons.mp hn).2 (t.start sys d) (by rw [h3, hp]; simp)]
 
-/-- **C12 is false of the pinned code** (finding F1): four system events sent in the order 1,2,3,4 to a busy system are
-    read in the order 1,4,3,2. -/
-theorem C12_false : C03.claimOrder 4 { prepared := [(7, 1), (7, 2), (7, 3), (7, 4)] } 7 ≠ [1, 2, 3, 4] := by decide
+/-- The former counter-witness of finding F1: four system events sent in the order 1,2,3,4 to a busy system are read in the
+    order 1,2,3,4 (the pinned code read 1,4,3,2). -/
+theorem four_events_in_order : C03.claimOrder [1, 2, 3, 4] { prepared := [(7, 1), (7, 2), (7, 3), (7, 4)] } 7 = [1, 2, 3, 4] :=
+  C03.claims_in_sending_order
 
-/-- Entries of other systems in between do not disturb the claim of the first matching entry. -/
-theorem claim_skips_others (t : TrkData) (sys d : Nat) (pre post : List (Nat × Nat))
-    (hp : t.prepared = pre ++ (sys, d) :: post) (hpre : ∀ x ∈ pre, x.1 ≠ sys) : (t.start sys).cur = d :=
-  C03.claim_exact_of_first t sys d pre post hp hpre
+/-- Entries of other systems, or other entries of the same system, do not disturb the claim of a command's own entry. -/
+theorem claim_skips_others (t : TrkData) (sys d : Nat) (h : (sys, d) ∈ t.prepared) : (t.start sys d).cur = d :=
+  C03.claim_exact_of_present t sys d h
 
-example : C03.claimOrder 2 { prepared := [(3, 10), (3, 20)] } 3 = [10, 20] := claims_in_order_two 3 10 20
+/-- **Each with its own data, for every execution**: whenever a command reaches its run — in-line or replayed after a
+    postponement — the trackers hold exactly the metadata this command prepared. -/
+theorem each_with_its_own_data (p : Prog) (h : Hist) {s : St} (hr : Reach p h ({} : St) s) {sys idx : Nat} {k : Kind}
+    {rest : List Frame} (hst : s.stack = Frame.runnerLookup sys k idx :: rest) :
+    claimedOwn (setupK { s with stack := rest, storage := upd s.storage sys (some false), counter := s.counter + 1 } k sys) k = true :=
+  (C03.C03_all p h hr hst).1
+
+example : C03.claimOrder [10, 20] { prepared := [(3, 10), (3, 20)] } 3 = [10, 20] :=
+  claims_in_order 3 [10, 20] (by decide) _ rfl
 
 end Cobweb.C12
